@@ -148,6 +148,9 @@ func NewChunkStorage[T Tx](
 		}
 		minSlot = int64(minSlotUint64)
 	}
+	// restore the persisted minimum on the verifier, which otherwise only learns it
+	// on the next SetMin
+	verifier.SetMin(minSlot)
 
 	storage := &ChunkStorage[T]{
 		minimumExpiry:      minSlot,
